@@ -48,6 +48,10 @@ const (
 
 // String returns the string representation of this signing algorithm.
 func (f SigningAlgorithm) String() string {
+	// values outside the supported algorithms have no name
+	if f < UnknownSigningAlgorithm || f > ECDSASecp256k1 {
+		return "UNKNOWN"
+	}
 	return [...]string{"UNKNOWN", "BLS_BLS12381", "ECDSA_P256", "ECDSA_secp256k1"}[f]
 }
 
